@@ -7,6 +7,7 @@ import (
 	"encoding/json"
 	"errors"
 	"fmt"
+	"os"
 	"path/filepath"
 	"regexp"
 	"strings"
@@ -152,7 +153,7 @@ func C07(c *core.Ctx) {
 			}
 			if n%step == 0 {
 				loads++
-				if f := c07Load(s, env, want); f != "" {
+				if f := c07Load(s, env, want, loads%3, filepath.Join(c.Work, "c07inc")); f != "" {
 					c.Report(core.Finding{Sig: "load:" + tplSig(s), Detail: f, Replay: map[string]interface{}{"template": s, "env": env, "expected": want}})
 				}
 			}
@@ -229,7 +230,11 @@ func C07(c *core.Ctx) {
 	c.Set("rule", "cases are (template, environment) pairs enumerated exhaustively by TLC from the grammar up to the size bound, plus every string over an 11-symbol alphabet up to the length bound; distinct by text and environment; non-trivial when the text contains a `$`")
 }
 
-func c07Load(s string, env tplEnv, want map[string]interface{}) string {
+// c07Load loads the template as a label value. mode 0: a YAML document; mode 1: an already parsed document that was loaded
+// once before under another environment (interpolation must not have written into it); mode 2: in a second compose file,
+// after a first one that includes a project whose .env defines every variable (that environment belongs to the included
+// project only).
+func c07Load(s string, env tplEnv, want map[string]interface{}, mode int, dir string) string {
 	q, _ := json.Marshal(s)
 	doc := "services:\n  a:\n    image: img\n    labels:\n      k: " + string(q) + "\n"
 	e := types.Mapping{}
@@ -238,17 +243,38 @@ func c07Load(s string, env tplEnv, want map[string]interface{}) string {
 			e[k] = v.V
 		}
 	}
-	var p *types.Project
-	var err error
-	var pan interface{}
-	func() {
+	cfs := []types.ConfigFile{{Filename: "compose.yaml", Content: []byte(doc)}}
+	wd := "/tmp"
+	load := func(cfs []types.ConfigFile, e types.Mapping) (p *types.Project, err error, pan interface{}) {
 		defer func() { pan = recover() }()
-		p, err = loader.LoadWithContext(context.Background(), types.ConfigDetails{WorkingDir: "/tmp", Environment: e,
-			ConfigFiles: []types.ConfigFile{{Filename: "compose.yaml", Content: []byte(doc)}}}, func(o *loader.Options) {
+		p, err = loader.LoadWithContext(context.Background(), types.ConfigDetails{WorkingDir: wd, Environment: e, ConfigFiles: cfs}, func(o *loader.Options) {
 			o.SetProjectName("p", true)
 			o.SkipResolveEnvironment = true
 		})
-	}()
+		return
+	}
+	switch mode {
+	case 1:
+		parsed := map[string]interface{}{"services": map[string]interface{}{"a": map[string]interface{}{"image": "img", "labels": map[string]interface{}{"k": s}, "command": []interface{}{"run", s}}}}
+		prime := types.Mapping{}
+		for k := range env {
+			prime[k] = "primed-" + k
+		}
+		cfs = []types.ConfigFile{{Filename: "compose.yaml", Config: parsed}}
+		_, _, _ = load(cfs, prime)
+	case 2:
+		wd = dir
+		_ = os.MkdirAll(filepath.Join(dir, "inc"), 0o755)
+		var dotenv strings.Builder
+		for k := range env {
+			dotenv.WriteString(k + "=from-included-project\n")
+		}
+		_ = os.WriteFile(filepath.Join(dir, "inc", ".env"), []byte(dotenv.String()), 0o644)
+		_ = os.WriteFile(filepath.Join(dir, "inc", "compose.yaml"), []byte("services:\n  i:\n    image: img\n"), 0o644)
+		cfs = []types.ConfigFile{{Filename: filepath.Join(dir, "compose.yaml"), Content: []byte("include:\n  - inc/compose.yaml\nservices:\n  a:\n    image: img\n")},
+			{Filename: filepath.Join(dir, "over.yaml"), Content: []byte(doc)}}
+	}
+	p, err, pan := load(cfs, e)
 	if pan != nil {
 		return fmt.Sprintf("loading a document with label %q panics: %v", s, pan)
 	}
